@@ -171,6 +171,13 @@ def _job(kw):
         return ("bad", str(e))
     bad = []
     ncmp = 0
+    # basis functions may only be skipped according to the lower end of the integrals, the Nachtmann point
+    interp = op.runner.attrs["configs"].attrs["managers"]["interpolator"]
+    for j, arg in interp.attrs.get("_below_calls", []):
+        if not (isinstance(arg, A.Rat) and A.equal(arg, xi, tol=Fraction(0))):
+            bad.append(("support", 0, j, f"basis function {j} is skipped according to is_below_x({A.canon(arg)[:60]}) instead of the Nachtmann point xi, "
+                        "the lower end of the TMC integrals"))
+            break
     # the result is reported at the requested kinematics, not the shifted ones
     if not (isinstance(op.res_x, A.Rat) and A.equal(op.res_x, x, tol=Fraction(0))):
         bad.append(("kinematics", 0, 0, f"result carries x = {A.canon(op.res_x)[:80]} instead of the requested x"))
